@@ -109,11 +109,12 @@ def op_strategy(counts=False):
     # any numpy comparison), which are true/false but not `True`/`False`
     # ... and arguments are sometimes passed positionally, in the documented
     # order of the signature
-    return st.builds(lambda o, f, pos: dict(o, **dict(
+    return st.builds(lambda o, f, sty: dict(o, **dict(
         ([("npflag", True)] if f else []) +
-        ([("positional", True)] if pos else []))),
+        ([(sty, True)] if sty else []))),
         st.one_of(*s), st.sampled_from([False, False, True]),
-        st.sampled_from([False, False, False, True]))
+        st.sampled_from([None, None, None, "positional", "positional",
+                         "omit_defaults"]))
 
 
 # ---------------------------------------------------------------------------
@@ -131,6 +132,19 @@ def _same_arg(what, obj, held):
         raise Violation("argument-modified", "%s changed the %s it was "
                         "given: %r -> %r" % (what, type(held).__name__,
                                              held, obj))
+
+
+def _call(method, args, kw, op, defaults):
+    """Call `method(*args, **kw)` in the style the case asks for: keywords,
+    positionally in the documented order (`kw` is written in that order), or
+    leaving out every argument that equals its documented default."""
+    if op.get("positional"):
+        return method(*args, *kw.values())
+    if op.get("omit_defaults"):
+        kw = {k: v for k, v in kw.items()
+              if not (k in defaults and type(v) is type(defaults[k]) and
+                      v == defaults[k])}
+    return method(*args, **kw)
 
 
 class Outcome:
@@ -302,12 +316,11 @@ def apply(t, op):
             def sel(v, i, md):
                 return i in ks
         held = _held(sel) if op["how"] == "ids" else None
-        if op.get("positional"):
-            # filter(ids_to_keep, axis, invert, inplace)
-            r = t.filter(sel, op["axis"], op["invert"], op["inplace"])
-        else:
-            r = t.filter(sel, axis=op["axis"], invert=op["invert"],
-                         inplace=op["inplace"])
+        # filter(ids_to_keep, axis='sample', invert=False, inplace=True)
+        r = _call(t.filter, [sel], {"axis": op["axis"],
+                                    "invert": op["invert"],
+                                    "inplace": op["inplace"]}, op,
+                  {"axis": "sample", "invert": False, "inplace": True})
         if held is not None:
             _same_arg("filter", sel, held)
         return Outcome(r, inplace=op["inplace"])
@@ -319,9 +332,9 @@ def apply(t, op):
     if name == "remove_empty":
         if t.matrix_data.count_nonzero() == 0 and not t.is_empty():
             return Outcome(skipped="would empty the table")
-        r = t.remove_empty(op["axis"], op["inplace"]) \
-            if op.get("positional") else \
-            t.remove_empty(axis=op["axis"], inplace=op["inplace"])
+        r = _call(t.remove_empty, [], {"axis": op["axis"],
+                                       "inplace": op["inplace"]}, op,
+                  {"axis": "whole", "inplace": True})
         return Outcome(r, inplace=op["inplace"])
     if name == "head":
         return Outcome(t.head(op["n"], op["m"]))
@@ -336,8 +349,8 @@ def apply(t, op):
         p = hops.perm_from_key(len(ids), op["key"])
         order = [ids[i] for i in p]
         held = _held(order)
-        r = t.sort_order(order, op["axis"]) if op.get("positional") else \
-            t.sort_order(order, axis=op["axis"])
+        r = _call(t.sort_order, [order], {"axis": op["axis"]}, op,
+                  {"axis": "sample"})
         _same_arg("sort_order", order, held)
         return Outcome(r)
     if name == "transpose":
@@ -362,12 +375,11 @@ def apply(t, op):
         if len(set(new)) != len(new):
             return Outcome(skipped="non-injective renaming")
         held = _held(mp)
-        if op.get("positional"):
-            # update_ids(id_map, axis, strict, inplace)
-            r = t.update_ids(mp, op["axis"], op["strict"], op["inplace"])
-        else:
-            r = t.update_ids(mp, axis=op["axis"], strict=op["strict"],
-                             inplace=op["inplace"])
+        # update_ids(id_map, axis='sample', strict=True, inplace=True)
+        r = _call(t.update_ids, [mp], {"axis": op["axis"],
+                                       "strict": op["strict"],
+                                       "inplace": op["inplace"]}, op,
+                  {"axis": "sample", "strict": True, "inplace": True})
         _same_arg("update_ids", mp, held)
         return Outcome(r, inplace=op["inplace"])
     if name == "add_metadata":
@@ -391,29 +403,27 @@ def apply(t, op):
             v = _vals(t)
             if np.any(v < 0):
                 return Outcome(skipped="div_sum on negatives")
-        if op.get("positional"):
-            r = t.transform(transform_fn(op["fn"]), op["axis"], op["inplace"])
-        else:
-            r = t.transform(transform_fn(op["fn"]), axis=op["axis"],
-                            inplace=op["inplace"])
+        r = _call(t.transform, [transform_fn(op["fn"])],
+                  {"axis": op["axis"], "inplace": op["inplace"]}, op,
+                  {"axis": "sample", "inplace": True})
         return Outcome(r, inplace=op["inplace"])
     if name == "norm":
         if np.any(_vals(t) < 0):
             return Outcome(skipped="norm on negative values")
-        r = t.norm(op["axis"], op["inplace"]) if op.get("positional") else \
-            t.norm(axis=op["axis"], inplace=op["inplace"])
+        r = _call(t.norm, [], {"axis": op["axis"],
+                               "inplace": op["inplace"]}, op,
+                  {"axis": "sample", "inplace": True})
         return Outcome(r, inplace=op["inplace"])
     if name == "pa":
-        r = t.pa(op["inplace"]) if op.get("positional") else \
-            t.pa(inplace=op["inplace"])
+        r = _call(t.pa, [], {"inplace": op["inplace"]}, op,
+                  {"inplace": True})
         return Outcome(r, inplace=op["inplace"])
     if name == "rankdata":
-        if op.get("positional"):
-            # rankdata(axis, inplace, method)
-            r = t.rankdata(op["axis"], op["inplace"], op["method"])
-        else:
-            r = t.rankdata(axis=op["axis"], method=op["method"],
-                           inplace=op["inplace"])
+        # rankdata(axis='sample', inplace=True, method='average')
+        r = _call(t.rankdata, [], {"axis": op["axis"],
+                                   "inplace": op["inplace"],
+                                   "method": op["method"]}, op,
+                  {"axis": "sample", "inplace": True, "method": "average"})
         return Outcome(r, inplace=op["inplace"])
     if name == "subsample":
         if not op["by_id"] and not is_count_table(t):
